@@ -51,4 +51,94 @@ def set (c : Conv) (t : Triple) (v : PyVal) (retries : Nat) : Effect :=
   | .transmit r => ⟨.transmit r, { t with value := r }, List.replicate retries r⟩
   | o => ⟨o, t, []⟩
 
+/-! ### controller reports in the model: the report / set machine
+
+`Parameter.update(values)` (helpers/parameter.py:217-222) runs for every controller report of the
+parameter, whether or not a set is pending:
+
+    if self.pending_update and self._previous_value != values.value: self._pending_update = False
+    self._values = values
+
+so the triple held is ALWAYS the last reported one (with the value possibly overwritten by an
+accepted `set` since).  `Parameter.set` checks the range ONCE, when it is called; every retry
+re-asserts the requested value (fix f71a033) and transmits it without looking at the bounds again:
+
+    self._previous_value = self._values.value ; self._values.value = value ; pending = True
+    while pending:  if retries <= 0: return False
+                    self._values.value = value ; queue.put(create_request()) ; [refresh] ; sleep(timeout) ; retries -= 1
+    return True
+
+Events: a controller report, a `set` call (its decision and first attempt happen at once), and
+`tick`: the sleep of the call in flight is over (next loop head). -/
+
+/-- a call in flight: requested raw value, attempts left, and (ghost) the bounds held when it was accepted -/
+structure Call where
+  r : Int
+  left : Nat
+  lo : Int
+  hi : Int
+deriving Repr, DecidableEq, Inhabited
+
+structure MState where
+  held : Triple
+  pending : Bool := false
+  previous : Int := 0      -- `_previous_value`
+  call : Option Call := none
+deriving Repr, DecidableEq, Inhabited
+
+inductive MEvent where
+  | report (t : Triple)
+  | set (v : PyVal) (retries : Nat)
+  | tick
+deriving Repr, Inhabited
+
+inductive MOut where
+  | decided (o : Outcome)
+  /-- a set request carrying `r`; ghost: bounds held when the call was accepted (`lo`,`hi`) and
+  bounds held now, i.e. last reported (`curLo`,`curHi`) -/
+  | tx (r lo hi curLo curHi : Int)
+  | returned (b : Bool)
+deriving Repr, DecidableEq, Inhabited
+
+def update (s : MState) (t : Triple) : MState :=
+  { s with held := t, pending := if s.pending && s.previous != t.value then false else s.pending }
+
+/-- the loop head of the call in flight -/
+def attempt (s : MState) : MState × List MOut :=
+  match s.call with
+  | none => (s, [])
+  | some c =>
+    if s.pending = false then ({ s with call := none }, [.returned true])
+    else if c.left = 0 then ({ s with call := none }, [.returned false])
+    else ({ s with held := { s.held with value := c.r }, call := some { c with left := c.left - 1 } },
+          [.tx c.r c.lo c.hi s.held.min s.held.max])
+
+def stepM (c : Conv) (s : MState) : MEvent → MState × List MOut
+  | .report t => (update s t, [])
+  | .tick => attempt s
+  | .set v n =>
+    match s.call with
+    | some _ => (s, [])     -- a second concurrent call on the same parameter is outside the model
+    | none =>
+      match decide c s.held v with
+      | .transmit r =>
+        let s1 : MState := { held := { s.held with value := r }, pending := true, previous := s.held.value,
+                             call := some ⟨r, n, s.held.min, s.held.max⟩ }
+        let (s2, o) := attempt s1
+        (s2, .decided (.transmit r) :: o)
+      | o => (s, [.decided o])
+
+def runM (c : Conv) : MState → List MEvent → MState × List MOut
+  | s, [] => (s, [])
+  | s, ev :: rest =>
+    let (s1, o) := stepM c s ev
+    let (s2, os) := runM c s1 rest
+    (s2, o ++ os)
+
+/-- the last report of a history -/
+def lastReport : List MEvent → Option Triple
+  | [] => none
+  | .report t :: rest => (lastReport rest).orElse (fun _ => some t)
+  | _ :: rest => lastReport rest
+
 end PlumVerif.ParamSet
